@@ -4,6 +4,7 @@
 # both read this.
 
 ENGINES = {
+    "H1": {"name": "pipe-sim", "pkg": "./bfe_util/pipe", "desc": "real bfe_util/pipe (mutex+cond) with writer/reader/closer/breaker tasks under the lock/cond-granular scheduler; porcupine linearizability against a bounded-FIFO model"},
     "A": {"name": "balancer-sim", "pkg": "./bfe_balance", "desc": "real bal_table/bal_gslb/bal_slb/backend under the lock-granular scheduler, fake clock, configs through the real file loaders"},
 }
 
@@ -43,6 +44,12 @@ PROPS["C09"] = dict(engine="A", runs=(6000, 200000), modes=[("nofault", 0.25), (
     level_text="Seeded histories of 1-10 reloads (backend/sub-cluster/cluster adds and removes, weight and gslb-weight changes, renames, duplicate addresses, clusters disappearing and reappearing) interleaved with availability flips, connection counts, failure marks and selections, all through the real loaders and BalTableReload. After every reload: survivors keep Avail/ConnNum/FailNum and are not released, every removed object has its close channel closed (a second release panics and is caught), nothing removed is ever selected again, every new eligible backend is selected within 2W picks.",
     level_note="Trusted: simrt, the harness's identity model (cluster, sub-cluster, addr:port, name); object identity of removed backends is taken from a snapshot of the balancer's own list before the reload.",
     technique="deterministic simulation: seeded reload histories on the real balancer with survivor/release/zombie/new oracles; tape-shrunk replay")
+
+PROPS["C21"] = dict(engine="H1", runs=(20000, 600000), modes=[("nofault", 0.25), ("swarm", 0.75)], race=True, race_div=8,
+    level="exploration", design="§6 Engine H / C21",
+    level_text="Seeded search over mutex/cond-granular interleavings of a writer, a reader, a closer and an optional breaker on the real Pipe (buffer sizes 1-64, write sizes 0-80, read buffers 1-40). Oracles: stream invariants (bytes read are a prefix of bytes accepted, exactly once, in order; close only after drain; break immediate for reads invoked after it returned; n<len only with an error), lost-wake-up/deadlock detection, and porcupine linearizability of every recorded history against a sequential bounded-FIFO model; a -race variant.",
+    level_note="Trusted: simrt/simsync (Cond is implemented on the scheduler, FIFO wake-up like sync.Cond), porcupine v1.3.0, the 60-line sequential model. One reader, one writer (the way HTTP/2 and SPDY use the pipe).",
+    technique="deterministic simulation: seeded lock/cond-granular schedule search, stream invariants + porcupine linearizability vs a sequential model, race detector under controlled schedules")
 
 NOT_APPLICABLE = {
     "C10": "pure function of (host table, VIP table, Host header): no goroutine, clock, stream, file or peer takes part; the only thing to vary is input, which is generation, not simulation (DESIGN §7)",
